@@ -523,6 +523,23 @@ fn check_unit(header: &UnitHeader<Rdr>, rec: &UnitRec, spec: &UnitSpec, da: &Deb
         let mut got = Vec::new();
         walk(root, &mut got, 0, ents.len() + 4).map_err(|er| Failure { sig: "c02/tree/walk-error".into(), detail: format!("{er:?}") })?;
         ensure_eq!(got, want, "c02/tree/subtree", "subtree of the entry at {:#x}", e.offset);
+        // the same tree object walked again (after a complete walk, then after a direct-children-only walk) reports
+        // the same forest
+        if i == 0 || e.children {
+            let root = tree.root().map_err(|er| Failure { sig: "c02/tree/root-again".into(), detail: format!("at {:#x}: {:?}", e.offset, er) })?;
+            let mut again = Vec::new();
+            walk(root, &mut again, 0, ents.len() + 4).map_err(|er| Failure { sig: "c02/tree/walk-again-error".into(), detail: format!("{er:?}") })?;
+            ensure_eq!(again, want, "c02/tree/subtree-again", "second walk of the tree rooted at {:#x}", e.offset);
+            {
+                let root = tree.root().map_err(|er| Failure { sig: "c02/tree/root-again".into(), detail: format!("{er:?}") })?;
+                let mut it = root.children();
+                let _ = it.next();
+            }
+            let root = tree.root().map_err(|er| Failure { sig: "c02/tree/root-again".into(), detail: format!("{er:?}") })?;
+            let mut third = Vec::new();
+            walk(root, &mut third, 0, ents.len() + 4).map_err(|er| Failure { sig: "c02/tree/walk-again-error".into(), detail: format!("{er:?}") })?;
+            ensure_eq!(third, want, "c02/tree/subtree-again", "walk after a partial traversal of the tree rooted at {:#x}", e.offset);
+        }
         if i == 0 {
             // default root
             let mut tree = header.entries_tree(&abbrevs, None).map_err(|er| Failure { sig: "c02/tree/open".into(), detail: format!("{er:?}") })?;
